@@ -64,6 +64,12 @@ func (c04) Gen(r *hx.Run) {
 		fmt.Sprintf("4 3 s%s:32 s%s:35 G%s:1 D1:60 { g%s g%s s%s:33 g%s g%s } D1:0 g%s g%s", b, c, a, b, a, a, b, a, a, b),
 		fmt.Sprintf("4 3 s%s:32 G%s:1 D1:40 D0:10 { s%s:31 g%s s%s:34 g%s g%s } g%s", b, a, a, b, a, a, b, a),
 	)
+	basic = append(basic,
+		// the owner of a key goes away and comes back on its address; a migration target does; errors only in between
+		fmt.Sprintf("4 3 s%s:31 X1 g%s U1 g%s g%s", b, b, b, b),
+		fmt.Sprintf("4 3 s%s:31 G%s:1 X1 s%sq:32 U1 s%sq:33 g%sq N%s g%s", a, a, a, a, a, a, a),
+		fmt.Sprintf("4 3 s%s:31 O%s:1 X1 g%s U1 g%s W g%s", a, a, a, a, a),
+	)
 	for _, s := range basic {
 		r.Do("c04.cl "+s, true, "basic")
 	}
@@ -76,6 +82,7 @@ func (c04) Gen(r *hx.Run) {
 		var toks []string
 		migrating := map[string]bool{}
 		failed := false
+		down := -1
 		// a slot is never handed to the master that has been replaced (it is down for good)
 		target := func() int {
 			if failed {
@@ -112,14 +119,27 @@ func (c04) Gen(r *hx.Run) {
 				toks = append(toks, "F3")
 				failed = true
 			default:
-				toks = append(toks, "W")
+				// a master goes away and comes back on its address: errors are justified only in between
+				switch y := rng.Intn(3); {
+				case y == 0 && down < 0 && !failed:
+					down = 1 + rng.Intn(2)
+					toks = append(toks, fmt.Sprintf("X%d", down))
+				case y == 1 && down >= 0:
+					toks = append(toks, fmt.Sprintf("U%d", down))
+					down = -1
+				default:
+					toks = append(toks, "W")
+				}
 			}
+		}
+		if down >= 0 {
+			toks = append(toks, fmt.Sprintf("U%d", down))
 		}
 		toks = append(toks, "W")
 		for _, k := range keys[:5] {
 			toks = append(toks, "g"+k)
 		}
 		line := "c04.cl 4 3 " + strings.Join(toks, " ")
-		r.Do(line, strings.ContainsAny(line, "GOF"), "hist")
+		r.Do(line, strings.ContainsAny(line, "GOFX"), "hist")
 	}
 }
